@@ -384,6 +384,8 @@ def run(ctx):
                     r.fail(m, sub, "%s can be keyed by a short name" % norm(sub), "%s stores an option value under %s, which can be a short name (%s): the same option spelled '-x' and '--long' in one line is "
                            "kept under two keys - a multi-valued option loses the values of one spelling, a repeated option is not overridden" % (m.short, norm(sub.slice), why))
     ctx.require(n14 >= 1, "the parser no longer stores option values in an attribute of its own")
+    ctx.borrow("c05", "C05-R2", "C01-R16", "'parses to exactly that assignment' - also the second time the same line is parsed: the parser works on a copy of the caller's token list, it never consumes or edits the raw args it was given")
+    ctx.borrow("c06", "C06-R4", "C01-R17", "'access by long name, short name or position agrees': what is_option_set / is_option_defined answer comes from has_option, what option() returns from get_option - the two consult the same indices, own and inherited")
     return ctx.results
 
 
